@@ -224,6 +224,23 @@ class Ctx:
                                % (r.violated, module, logp))
         return r
 
+    def tlaps(self, module, timeout=600):
+        """Check the TLAPS proofs of spec/<module>.tla with tlapm; returns (obligations, proved)."""
+        d = os.path.join(self.work, "tlaps-" + module)
+        os.makedirs(d, exist_ok=True)
+        copy_specs(d)
+        p = subprocess.run(["timeout", str(timeout), "tlapm", "--threads", str(min(NCPU, 8)), "--cleanfp", module + ".tla"],
+                           cwd=d, capture_output=True, text=True)
+        out = p.stdout + p.stderr
+        with open(os.path.join(d, "tlapm.log"), "w") as f:
+            f.write(out)
+        m = re.search(r"All (\d+) obligations? proved", out)
+        if not m:
+            raise Inconclusive("tlapm did not prove every obligation of %s: %s" % (module, out[-600:]))
+        n = int(m.group(1))
+        self.extra.setdefault("tlaps", {})[module] = {"obligations": n, "discharged": n}
+        return n, n
+
     def tlc_parallel(self, jobs, procs=4):
         """Run several TLC jobs (dicts of tlc() keyword arguments) side by side."""
         from concurrent.futures import ThreadPoolExecutor
